@@ -52,7 +52,11 @@ var caseHash []byte
 func HashRun(r *RunResult) {
 	hh := sha256.New()
 	hh.Write(caseHash)
-	fmt.Fprintf(hh, "%s %d %d\n", r.Outcome, r.Exit, r.Steps)
+	// The step count is deliberately not part of the event log: findFiles
+	// sorts a map-ordered slice with an (instrumented) comparison closure,
+	// so the number of yields of a CLI run varies by a few with Go's map
+	// iteration order although every observable event is identical.
+	fmt.Fprintf(hh, "%s %d\n", r.Outcome, r.Exit)
 	hh.Write(r.Stdout)
 	hh.Write([]byte{0})
 	hh.Write(r.Stderr)
